@@ -122,6 +122,9 @@ def convert_case(ctx, L, cli, ex):
     real_in = "auto" if fmt_in == "auto-default" else fmt_in
     if fmt_out != "pretty" or data.draw(st.booleans()):
         args += ["--out", fmt_out]
+    if data.draw(st.integers(0, 3)) == 0:
+        # the default type, spelled out (allowed with every input format, auto included)
+        args += ["--type", "CommandResponseStream"]
     judge_convert(ctx, L, cli, args, real_in, fmt_out, "CommandResponseStream", content, None, malformed or fmt_in != "auto-default" or fmt_out != "pretty", n_files=n_files, stdin=stdin, delivery=delivery)
 
 
